@@ -16,7 +16,7 @@ def waitopen_lines(rnd):
 def gen_c13(rnd, n, thorough=False):
     cases = []
     for c in range(n):
-        kind = rnd.pick(['failed_open', 'failed_open', 'block', 'proc', 'sessions', 'waitopen'])
+        kind = rnd.pick(['failed_open', 'failed_open', 'block', 'proc', 'sessions', 'waitopen', 'childhold'])
         lines = []
         if kind == 'failed_open':
             # every way Open can fail after the descriptor was obtained (and a control that succeeds)
@@ -47,6 +47,10 @@ def gen_c13(rnd, n, thorough=False):
             tags = {'kind': kind}
         elif kind == 'waitopen':
             lines += waitopen_lines(rnd)
+            tags = {'kind': kind}
+        elif kind == 'childhold':
+            layout = [(1, 20), (5, 10)]
+            lines += ["create f %s m 2 x 3f000000" % fmt_layout(layout), "sync f", "drop f", "childhold f"]
             tags = {'kind': kind}
         else:
             layout = [(1, rnd.pick([400, 700, 1200]))]          # several 4 KiB pages
